@@ -32,6 +32,7 @@ from lark import (
     UnexpectedEOF,
     ParseTree,
 )
+from lark.exceptions import VisitError
 
 from .types import Nil
 
@@ -148,6 +149,13 @@ def _get_error_line(exception: Any, source: str) -> int:
         return int(exception.line)
 
     return len(source.split("\n"))
+
+
+def _describe_visit_error(exception: VisitError) -> str:
+    # a semantic action rejected its node (e.g. an empty enum, a non integer id,
+    # an unknown field parameter): report it instead of raising
+    reason = " ".join(str(exception.orig_exc).split())
+    return f"Invalid {exception.rule}: {reason}"
 
 
 class Token:
@@ -432,12 +440,18 @@ class FcpV2Transformer(Transformer):
                 Token(MetaData(line, line, e.column, e.column, 0, 0, str(filename))),
             )
 
-        fcp = FcpV2Transformer(
-            pathlib.Path(filename).resolve(),
-            self.parser_context,
-            self.filesystem_proxy,
-            self.error_logger,
-        ).transform(fcp_ast)
+        try:
+            fcp = FcpV2Transformer(
+                pathlib.Path(filename).resolve(),
+                self.parser_context,
+                self.filesystem_proxy,
+                self.error_logger,
+            ).transform(fcp_ast)
+        except VisitError as e:
+            return error(
+                f"Failed to import {filename}: {_describe_visit_error(e)}",
+                Token(_get_meta(tree, self)),
+            )
 
         self.fcp.merge(
             fcp.map_err(
@@ -580,9 +594,12 @@ def _get_fcp(
 
     parser_context = ParserContext()
 
-    fcp = FcpV2Transformer(
-        filename, parser_context, filesystem_proxy, logger
-    ).transform(fcp_ast)
+    try:
+        fcp = FcpV2Transformer(
+            filename, parser_context, filesystem_proxy, logger
+        ).transform(fcp_ast)
+    except VisitError as e:
+        return error(_describe_visit_error(e))
 
     return Ok(fcp.attempt())
 
